@@ -8,7 +8,7 @@ const char* const H_PROPERTY = "C02";
 
 #define MAXTHIEF 3
 #define MAXOPS 10
-#define MAXV 400
+#define MAXV 1400
 static wsd_work_stealing_deque_t* dq;
 static int nthief, prefill, owner_n, owner_op[MAXOPS], thief_n[MAXTHIEF];
 /* ghost */
@@ -68,7 +68,16 @@ static NS void g_take_end(snap_t s, void* r, const char* how) {
 static void* owner(void* p) {
   (void)p;
   for (int i = 0; i < owner_n; i++) {
-    if (owner_op[i]) {
+    if (owner_op[i] == 2) { /* 256 pushes in one go (no preemption inside: a thief that was preempted in the
+                               middle of a steal stays there while the queue grows past it) */
+      sim_preempt_off();
+      for (int k = 0; k < 256; k++) {
+        int v = g_push_begin();
+        wsd_work_stealing_deque_push_bottom(dq, (void*)(long)v);
+        g_push_end(v);
+      }
+      sim_preempt_on();
+    } else if (owner_op[i]) {
       int v = g_push_begin();
       wsd_work_stealing_deque_push_bottom(dq, (void*)(long)v);
       g_push_end(v);
@@ -96,16 +105,22 @@ void h_run(void) {
   prefill = big ? wl_int(250, 258) : wl_int(0, 3);
   owner_n = wl_int(1, MAXOPS);
   int pushes = 0;
+  int bulks = 0;
   for (int i = 0; i < owner_n; i++) {
     owner_op[i] = wl_pct(big ? 70 : 50);
-    pushes += owner_op[i];
+    if (big && bulks < 2 && wl_pct(30)) {
+      owner_op[i] = 2;
+      bulks++;
+      pushes += 255;
+    }
+    pushes += owner_op[i] != 0;
   }
   int steals = 0;
   for (int t = 0; t < nthief; t++) {
     thief_n[t] = wl_int(1, 6);
     steals += thief_n[t];
   }
-  sim_describe("prefill=%d owner_ops=%d (pushes %d) thieves=%d steals=%d preempt=1/%d", prefill, owner_n, pushes, nthief, steals, c.preempt_inv);
+  sim_describe("prefill=%d owner_ops=%d (pushes %d, bulk pushes of 256: %d) thieves=%d steals=%d preempt=1/%d", prefill, owner_n, pushes, bulks, nthief, steals, c.preempt_inv);
   sim_nontrivial();
   dq = wsd_work_stealing_deque_create();
   sim_preempt_off();
